@@ -106,8 +106,21 @@ impl AsRef<[u32]> for SmtString {
     }
 }
 
+// Convert a Rust character to an SMT character:
+// a code point above MAX_CHAR is replaced by REPLACEMENT_CHAR, as in the integer constructors
+fn smt_char_of(c: char) -> u32 {
+    let x = c as u32;
+    if x <= MAX_CHAR {
+        x
+    } else {
+        REPLACEMENT_CHAR
+    }
+}
+
 ///
 /// Construct an SmtString from a UTF8 string x
+///
+/// Any character of x that is not in the range [0, 0x2ffff] is replaced by 0xfffd.
 ///
 /// # Example
 /// ```
@@ -118,7 +131,7 @@ impl AsRef<[u32]> for SmtString {
 /// ```
 impl From<&str> for SmtString {
     fn from(x: &str) -> Self {
-        SmtString::make(x.chars().map(|c| c as u32).collect())
+        SmtString::make(x.chars().map(smt_char_of).collect())
     }
 }
 
@@ -180,9 +193,11 @@ impl From<u32> for SmtString {
 ///
 /// Construct a single-character string from character x.
 ///
+/// Convert x to 0xfffd if it's not a valid SMT character (i.e., if x is not in the range [0, 0x2ffff])
+///
 impl From<char> for SmtString {
     fn from(x: char) -> SmtString {
-        SmtString::make(vec![x as u32])
+        SmtString::make(vec![smt_char_of(x)])
     }
 }
 
@@ -222,7 +237,7 @@ fn new_automaton() -> ParsingAutomaton {
 impl ParsingAutomaton {
     // add char x to the string so far
     fn push(&mut self, x: char) {
-        self.string_so_far.push(x as u32);
+        self.string_so_far.push(smt_char_of(x));
     }
 
     // add char x to the pending array
